@@ -1,4 +1,4 @@
-(* PriceTable/Model.v — rhp/v3/pricetable.go at /repo a56b3e6: priceTableManager
+(* PriceTable/Model.v — rhp/v3/pricetable.go WITH fixes/C12-pricetable-get-checks-expiry.patch: priceTableManager
    (newPriceTableManager, Register, Get, pruneExpired) as a state machine over virtual time.
    No proofs here.
 
@@ -10,8 +10,9 @@
                                      time.Now() = now; [tid] identifies the table's contents
      Tick now                        the runtime runs the expiry timer's function pruneExpired;
                                      every time.Until() in it reads [now]
-     Get uid now                     pm.Get(uid) ([now] is not read by the code: Get never looks
-                                     at an expiry, a table is served for as long as it is in the map)
+     Get uid now                     pm.Get(uid) with time.Now() = now: a table is served iff it is
+                                     in the map and now is before its expiry (before the fix Get
+                                     never looked at an expiry: Module Legacy)
 
    The single *time.Timer is explicit state:
      TNil      expirationTimer == nil (nothing was ever registered)
@@ -38,7 +39,7 @@ Inductive timer := TNil | TIdle | TArmed (at_ : N).
 
 Record state := {
   elist  : list entry;      (* expirationList, front first *)
-  tables : list (N * N);    (* priceTables: UID -> table (contents id) *)
+  tables : list (N * (N * N)); (* priceTables: UID -> registeredPriceTable (contents id, expiry) *)
   tmr    : timer            (* expirationTimer *)
 }.
 
@@ -51,7 +52,8 @@ Inductive op :=
 | Get (uid now : N).
 
 Inductive obs :=
-| OState (l : list (N * N)) (m : list (N * N))  (* expirationList as (uid, expiry); priceTables as (uid, tid) *)
+| OState (l : list (N * N)) (m : list (N * (N * N)))
+                                                (* expirationList as (uid, expiry); priceTables as (uid, (tid, expiry)) *)
 | OGet (r : option N)                           (* Some tid | None = ErrNoPriceTable *)
 | OBadTick                                      (* the timer function ran although the model's timer was not due *)
 | OSumm (n : N) (front back : option (N * N)) (msize : N).
@@ -59,10 +61,10 @@ Inductive obs :=
      entry, and the size of the map (a recorded case stays linear in the number of registrations
      when tables do not expire) *)
 
-(* Register, lines 83-103 *)
+(* Register, lines 92-112 *)
 Definition register (s : state) (uid tid now validity : N) : state :=
   let expiration := (now + validity)%N in                       (* time.Now().Add(pt.Validity) *)
-  let m := aset uid tid (tables s) in                           (* pm.priceTables[pt.UID] = pt *)
+  let m := aset uid (tid, expiration) (tables s) in             (* pm.priceTables[pt.UID] = registeredPriceTable{pt, expiration} *)
   let l := elist s ++ [{| euid := uid; eexp := expiration |}] in (* PushBack *)
   let t := match tmr s with
            | TNil => TArmed expiration                          (* time.AfterFunc(time.Until(expiration), pm.pruneExpired) *)
@@ -72,8 +74,8 @@ Definition register (s : state) (uid tid now validity : N) : state :=
            end in
   {| elist := l; tables := m; tmr := t |}.
 
-(* pruneExpired, lines 46-68: the loop over the front of the list *)
-Fixpoint prune (now : N) (l : list entry) (m : list (N * N)) : list entry * list (N * N) * timer :=
+(* pruneExpired, lines 55-77: the loop over the front of the list *)
+Fixpoint prune (now : N) (l : list entry) (m : list (N * (N * N))) : list entry * list (N * (N * N)) * timer :=
   match l with
   | [] => ([], m, TIdle)                                        (* ele == nil: return; nothing re-arms the timer *)
   | e :: r =>
@@ -84,6 +86,13 @@ Fixpoint prune (now : N) (l : list entry) (m : list (N * N)) : list entry * list
 
 Definition show (s : state) : obs :=
   OState (map (fun e => (euid e, eexp e)) (elist s)) (tables s).
+
+(* Get, lines 81-89, with the fix: `if !ok || !time.Now().Before(rpt.expiry) { ErrNoPriceTable }` *)
+Definition get (s : state) (uid now : N) : option N :=
+  match alookup uid (tables s) with
+  | Some (t, e) => if (now <? e)%N then Some t else None
+  | None => None
+  end.
 
 Definition step (s : state) (o : op) : state * obs :=
   match o with
@@ -98,32 +107,52 @@ Definition step (s : state) (o : op) : state * obs :=
           else (s, OBadTick)
       | _ => (s, OBadTick)
       end
-  | Get uid _ => (s, OGet (alookup uid (tables s)))             (* Get, lines 72-80 *)
+  | Get uid now => (s, OGet (get s uid now))
   end.
 
-(* The variant of the seeded change C12-mut7: Register resets the timer on every registration
-   (`else { Reset }` instead of `else if len(pm.priceTables) == 1 { Reset }`). *)
+(* The code before the fix, and the seeded change C12-mut7 on either. *)
 Module Legacy.
+  (* Get before the fix: `pt, ok := pm.priceTables[id]; if !ok { ErrNoPriceTable }` - no look at the expiry *)
+  Definition get (s : state) (uid : N) : option N :=
+    match alookup uid (tables s) with Some (t, _) => Some t | None => None end.
+  Definition step (s : state) (o : op) : state * obs :=
+    match o with
+    | Get uid _ => (s, OGet (get s uid))
+    | _ => step s o
+    end.
+End Legacy.
+
+(* C12-mut7: Register resets the timer on every registration (`else { Reset }` instead of
+   `else if len(pm.priceTables) == 1 { Reset }`) *)
+Module Mut7.
   Definition register (s : state) (uid tid now validity : N) : state :=
     let expiration := (now + validity)%N in
     {| elist := elist s ++ [{| euid := uid; eexp := expiration |}];
-       tables := aset uid tid (tables s);
+       tables := aset uid (tid, expiration) (tables s);
        tmr := TArmed expiration |}.
+  (* on the repaired code *)
   Definition step (s : state) (o : op) : state * obs :=
     match o with
     | Register uid tid now validity =>
         let s' := register s uid tid now validity in (s', show s')
     | _ => step s o
     end.
-End Legacy.
+  (* on the code before the fix (the seeded change as it was written) *)
+  Definition legacy_step (s : state) (o : op) : state * obs :=
+    match o with
+    | Register uid tid now validity =>
+        let s' := register s uid tid now validity in (s', show s')
+    | _ => Legacy.step s o
+    end.
+End Mut7.
 
 (* ---- correspondence entry point ---- *)
 Definition pair_eqb (a b : N * N) : bool := ((fst a =? fst b) && (snd a =? snd b))%N.
 
 (* priceTables is a Go map: the harness lists it in some order; both sides have distinct keys *)
-Definition map_eqb (m seen : list (N * N)) : bool :=
+Definition map_eqb (m seen : list (N * (N * N))) : bool :=
   (length m =? length seen)%nat &&
-  forallb (fun kv => option_eqb N.eqb (alookup (fst kv) m) (Some (snd kv))) seen.
+  forallb (fun kv => option_eqb pair_eqb (alookup (fst kv) m) (Some (snd kv))) seen.
 
 Definition obs_eqb (a b : obs) : bool :=
   match a, b with
